@@ -171,7 +171,7 @@ theorem chkFixedStarted_model (sp : SpecSt) (st : St) (op : Op) (hrel : RelS sp 
   apply all_pw (post_pw sp st op hrel hnd)
   intro sd x' hx' v
   by_cases ht : sd.trig = 0
-  · by_cases hcond : (sd.alive && sd.fixed && (timerFired sp op || isAddOf op (stepObs st op).2 sd.id) &&
+  · by_cases hcond : (sd.alive && sd.fixed && (timerFired op || isAddOf op (stepObs st op).2 sd.id) &&
         sd.inEffect op.now) = true
     · exfalso
       simp only [Bool.and_eq_true, Bool.or_eq_true] at hcond
@@ -187,12 +187,10 @@ theorem chkFixedStarted_model (sp : SpecSt) (st : St) (op : Op) (hrel : RelS sp 
       have hx1 : x'.start ≤ op.now := by rw [← v.2.2.1]; exact hin.1
       have hx2 : op.now < x'.fin := by rw [← v.2.2.2.1]; exact hin.2
       cases op with
-      | pump now =>
-        have hfired : st.startNext ≤ now := by
+      | pump now f =>
+        have hfired : f = true := by
           rcases hwhy with h | h
-          · rw [← hrel.2.2.2.2.2.1.1]
-            simp only [timerFired, isPump, Bool.true_and, Op.now] at h
-            exact of_decide_eq_true h
+          · simpa [timerFired] using h
           · simp [isAddOf] at h
         simp only [step, pumpOp, hfired, if_true] at hx'
         obtain ⟨x2, hx2m, rfl⟩ := List.mem_map.mp hx'
@@ -204,7 +202,7 @@ theorem chkFixedStarted_model (sp : SpecSt) (st : St) (op : Op) (hrel : RelS sp 
         exact this (by rw [← hk.1]; exact hxt)
       | add p now =>
         rcases hwhy with h | h
-        · simp [timerFired, isPump] at h
+        · simp [timerFired] at h
         · simp only [isAddOf, Bool.and_eq_true, beq_iff_eq] at h
           have hany : st.dts.any (fun d => d.id == p.id) = false := by
             by_cases ha : st.dts.any (fun d => d.id == p.id) = true
@@ -246,17 +244,17 @@ theorem chkFixedStarted_model (sp : SpecSt) (st : St) (op : Op) (hrel : RelS sp 
           omega
       | result s te now =>
         rcases hwhy with h | h
-        · simp [timerFired, isPump] at h
+        · simp [timerFired] at h
         · simp [isAddOf] at h
       | remove id u now =>
         rcases hwhy with h | h
-        · simp [timerFired, isPump] at h
+        · simp [timerFired] at h
         · simp [isAddOf] at h
       | setPaused b now =>
         rcases hwhy with h | h
-        · simp [timerFired, isPump] at h
+        · simp [timerFired] at h
         · simp [isAddOf] at h
-    · have : (sd.alive && sd.fixed && (timerFired sp op || isAddOf op (stepObs st op).2 sd.id) &&
+    · have : (sd.alive && sd.fixed && (timerFired op || isAddOf op (stepObs st op).2 sd.id) &&
         sd.inEffect op.now) = false := by simpa using hcond
       simp only [this, Bool.not_false, Bool.true_or]
   · simp [ht]
@@ -338,7 +336,7 @@ theorem both_sh_step (st : St) (op : Op) (hop : ∀ p now, op ≠ .add p now) :
   cases op with
   | add p now => exact absurd rfl (hop p now)
   | result s te now => exact both_result (trigRel_RSh now) st s te trivial (allc_trivial _)
-  | pump now =>
+  | pump now f =>
     simp only [step, pumpOp]
     split
     · exact both_trans (trigRel_RSh now).trans (both_sh_fireCleanup now _)
@@ -450,9 +448,9 @@ theorem unch_step (st : St) (op : Op) (hw : WFL st.dts) (hi : UnchInv st.dts) : 
       | result s te now =>
         exact ⟨both_sh_step st _ (fun _ _ h => by cases h), ids_result st s te now,
           pw_stepRM st (.result s te now) hnd⟩
-      | pump now =>
-        exact ⟨both_sh_step st _ (fun _ _ h => by cases h), ids_pump st now,
-          pw_stepRM st (.pump now) hnd⟩
+      | pump now f =>
+        exact ⟨both_sh_step st _ (fun _ _ h => by cases h), ids_pump st now f,
+          pw_stepRM st (.pump now f) hnd⟩
       | remove id u now =>
         exact ⟨both_sh_step st _ (fun _ _ h => by cases h), ids_remove st id u now,
           pw_stepRM st (.remove id u now) hnd⟩
@@ -728,7 +726,7 @@ theorem chkFlexible_model (sp : SpecSt) (st : St) (op : Op) (hrel : RelS sp st) 
             · exfalso; simp at h; apply hne; rw [r.1.1, h]; rfl
           have : d0 = d := eq_of_id hnd hd0m hd_st (by rw [← h1, r.1.1])
           rw [h2, this]; exact hd0
-    | pump now =>
+    | pump now f =>
       simp only [flexDue]
       have hd_st : d ∈ st.dts := hd
       have hunch : ∀ q ∈ st.dts, d.id ∉ q.triggers := by
